@@ -78,7 +78,7 @@ class MultiRepr:
         self.tok = tok
 
     def __repr__(self):
-        return "<%s [[1, 2],\n       [3, 4]]\r\n>" % self.tok
+        return "<%s [[1, 2],\n       [3, 4]]\r\n>\rtail" % self.tok
 
 
 class FalsyRepr:
@@ -103,7 +103,7 @@ def _text(tok, as_obj):
         return tok
     if as_obj:
         return MultiRepr(tok)
-    return "%s(first,\n  second)" % tok
+    return "%s(first,\n  second\r)" % tok
 
 
 def build_stack(s):
